@@ -48,6 +48,7 @@ PROOFS = [
     Proof('adjust_range', 'rl.c', 'h_adjust', kind='L', min_obligations=4, backend='cadical', timeout=600),
 ]
 NATIVES = []
+AUX_VIOLATION = True    # no native oracle: a failing loop-rule obligation is reported (no-failing-input-found), see DESIGN §4
 TRUSTED = ['cbmc 6.11.0', 'lowering rules of specs/C18/spec.py', 'std::set modelled as a sorted array with assumed lower_bound/emplace_hint/erase contracts']
 NOT_DECIDED = ['a waiter is woken when the conflicting range is unlocked and eventually acquires (condition variable + scheduler)',
                'unlock(offset,length) erase loop (std::set iterator invalidation semantics)']
